@@ -109,9 +109,12 @@ def run_property(mod, prop, seed, tier, seconds, max_cases, replay=None):
                     out.violations.append({"case": case, "detail": verdict.get("detail"),
                                            "origin": origin, "branch": verdict.get("branch")})
             elif not verdict["corr_ok"]:
-                out.corr_mismatch.append({"case": case, "detail": verdict.get("detail"),
-                                          "origin": origin, "branch": verdict.get("branch")})
-            if len(out.violations) >= 25 or len(out.corr_mismatch) >= 200:
+                # model and implementation differ but the property's own oracle is satisfied: keep the first 200 and
+                # go on - the search for an input on which the PROPERTY fails uses the whole budget
+                if len(out.corr_mismatch) < 200:
+                    out.corr_mismatch.append({"case": case, "detail": verdict.get("detail"),
+                                              "origin": origin, "branch": verdict.get("branch")})
+            if len(out.violations) >= 25:
                 break
         out.exhaustive = bool(getattr(mod, "EXHAUSTIVE_ONLY", False)) and replay is None
     finally:
